@@ -42,6 +42,48 @@ theorem NameOk.truthy {n : Name} (h : NameOk n) : truthy (some n) = true := by
   | nil => exact absurd rfl this
   | cons a r => rfl
 
+theorem ofAscii_toAscii_of_ascii (t : Text) (h : isAsciiText t = true) : t = Text.ofAscii t.toAscii := by
+  unfold Text.ofAscii Text.toAscii
+  rw [List.map_map]
+  conv => lhs; rw [← List.map_id t]
+  apply List.map_congr_left
+  intro c hc
+  have hc' : c < 128 := by simpa using List.all_eq_true.mp h c hc
+  simp only [id, Function.comp]
+  show c = (UInt8.ofNat c).toNat
+  rw [UInt8.toNat_ofNat']
+  omega
+
+theorem isAsciiText_ofAscii (b : Bytes) (hb : ∀ x ∈ b, x < 128) : isAsciiText (Text.ofAscii b) = true := by
+  unfold isAsciiText Text.ofAscii
+  rw [List.all_eq_true]
+  intro c hc
+  obtain ⟨x, hx, rfl⟩ := List.mem_map.mp hc
+  have := hb x hx
+  rw [UInt8.lt_iff_toNat_lt] at this
+  simpa using this
+
+/-- **`NameOk` is exactly "not refused by `_write_section_header`"** -/
+theorem nameOk_iff_not_refused (n : Name) : NameOk n ↔ valueRefused (.str n) = false := by
+  constructor
+  · intro h
+    have hv := (valOk_facts h.val).2
+    have ha : isAsciiText n = true := by
+      rw [h.ascii]
+      apply isAsciiText_ofAscii
+      intro x hx
+      have := hv x hx
+      revert this
+      simp only [valChar, isAlpha, isDigit, Bool.or_eq_true, Bool.and_eq_true, decide_eq_true_eq,
+        beq_iff_eq, UInt8.le_iff_toNat_le, UInt8.lt_iff_toNat_lt, ← UInt8.toNat_inj, UInt8.reduceToNat]
+      intro h'
+      omega
+    unfold valueRefused
+    simp [HVal.text, ha, h.val, h.str]
+  · intro h
+    obtain ⟨ha, hv, hc⟩ := valueRefused_str_false n h
+    exact ⟨ofAscii_toAscii_of_ascii n ha, hv, hc⟩
+
 /-! ## the laws of a program -/
 
 /-- the option list `_new_content_section` hands to `_write_section_header` -/
